@@ -6,6 +6,7 @@
    Only statements here; every proof is [exact lemma] (Proofs/SpecProofs.v). *)
 From Gleece Require Import Base.Bytes Model.Project Model.Spec Proofs.SpecProofs Model.Security Model.RouterGate
      Proofs.CrossProofs.
+From Gleece Require Model.Handler Proofs.HandlerProofs.
 From Coq Require Import String.
 Open Scope list_scope.
 
@@ -65,6 +66,14 @@ Example C04_nonvacuous :
     (Some (map (fun o => with_security o (o_security o ++ [(s "undeclared", [])])) demo_doc)) = false.
 Proof. exact demo_C04. Qed.
 
+(* whole requests: the alternatives the gate of the generated handler walks through (Handler.handle,
+   compared with every compiled router on every request of the C03/C05/C12 runs) are the security
+   requirements the document shows for the operation - same schemes, same scopes, same order *)
+Theorem C04_handler_gate_is_documented_security : forall cfg c m (o : operation),
+  sec_matches c m cfg o = true ->
+  Handler.gate_alts cfg c m = map req_to_alt (o_security o).
+Proof. exact HandlerProofs.handler_gate_is_documented_security. Qed.
+
 Print Assumptions C04_holds.
 Print Assumptions C04_effective_by_text_eq.
 Print Assumptions C04_effective_empty_iff.
@@ -72,3 +81,4 @@ Print Assumptions C04_op_security_sound.
 Print Assumptions C04_op_security_complete.
 Print Assumptions C04_nonvacuous.
 Print Assumptions C04_documented_equals_enforced.
+Print Assumptions C04_handler_gate_is_documented_security.
